@@ -90,6 +90,16 @@ PROPS = {
         'out_of_scope': [],
         'design_ref': '6 (C15)',
     },
+    'C16': {
+        'explanation': 'DTC pack/unpack (both directions, the four wire octets) and lamp encode/decode with round trips for all values '
+                       '(bit-vector arithmetic) against the J1939-73 layouts; DM1 payload build (any number of codes, loop invariant; '
+                       'priority 7 above 8 octets; exactly one send_pgn(0,0xFE,0xCA)), DM1 parse (lamps and every code, in order), '
+                       'build/parse round-trip lemma, dispatch, start_send registration and stop_send removal of that registration, '
+                       'DM22 request encoding.',
+        'out_of_scope': ['delivery of the payload over a bus by either link layer (C01/C02/C11 by composition)',
+                         'that the timer fires each cycle (C12) - composition of the registration with the timer pass'],
+        'design_ref': '6 (C16)',
+    },
 }
 
 LEVEL_TEXT = ('Deductive proof by contract: the real function bodies are re-read from /repo on every run, symbolically executed '
